@@ -82,6 +82,12 @@ class World:
         # JSON values (bool is an int): the mapping object itself is part of the world and must stay as given
         self.user_cast = {int: float}
         self.s_user = Schema([Rule(["bits", ListValue()], Value.dtype.equal_to(float), cast=self.user_cast)])
+        # a schema built without casts that later received casting rules through add_schema (under a concrete and under a
+        # fan-out root): whatever it derived from its rules when it was built is stale by then
+        self.s_grown = Schema([Rule(["a"], a)])
+        self.s_grown.add_schema(Schema([Rule(["x"], Value.dtype.equal_to(int), cast=dict(INT)),
+                                        Rule(["flag"], Value.dtype.equal_to(bool), cast=dict(BOOL))]), DataPath("m"))
+        self.s_grown.add_schema(Schema([Rule(["flag"], Value.dtype.equal_to(bool), cast=dict(BOOL))]), DataPath(MapOrListValue()))
         self.rules = self.s_cast.rules + self.s_path.rules
         self.d1 = {"m": {"x": "3", "flag": "true"}, "a": 1, "b": 1, "lo": 0, "lst": [1, "x", -2], "n": 4, "bits": [1, True, 2.5, "7", False],
                    "w": {"flag": "3", "x": "true"}, "tbl": [[1, 2], [3, 4], [5, 6]]}
@@ -91,7 +97,7 @@ class World:
         self.d4 = Data(["p", "q", "r", {"a": 1}])
 
     def roots(self):
-        return [self.a, self.b, self.ab, self.k, self.part, self.part2, self.mpart, self.pa, self.rows, self.s_cast, self.s_path, self.s_doc, self.s_one, self.ones, self.d4, self.s_user, self.user_cast,
+        return [self.a, self.b, self.ab, self.k, self.part, self.part2, self.mpart, self.pa, self.rows, self.s_cast, self.s_path, self.s_doc, self.s_one, self.ones, self.d4, self.s_user, self.user_cast, self.s_grown,
                 self.d1, self.d2, self.d3]
 
 
@@ -127,6 +133,7 @@ def menu():
         ops.append(("validate cast", di, lambda w, di=di: obs_validated(w.s_cast.validate(w.docs[di]))))
         ops.append(("validate one", di, lambda w, di=di: obs_validated(w.s_one.validate(w.ones[di]))))
         ops.append(("validate user-cast", di, lambda w, di=di: obs_validated(w.s_user.validate(w.docs[di]))))
+        ops.append(("validate grown", di, lambda w, di=di: obs_validated(w.s_grown.validate(w.docs[di]))))
         ops.append(("validate path", di, lambda w, di=di: obs_validated(w.s_path.validate(w.docs[di]))))
         for ri in range(9):
             ops.append(("test r%d" % ri, di, lambda w, di=di, ri=ri: obs_ruletest(w.rules[ri].test(w.docs[di]))))
